@@ -30,6 +30,8 @@ type GatedStore struct {
 	// FailAbove > 0: a Store call that arrives while more than FailAbove calls (itself included) are in
 	// flight fails, like a store that throttles concurrent requests.
 	FailAbove int
+	// FailErr, when set, is what failing Store calls return (default ErrInjected)
+	FailErr error
 	// OnArrival, when set, is called (outside the lock) with the arrival index of every Store call.
 	OnArrival func(idx int)
 }
@@ -105,6 +107,9 @@ func (g *GatedStore) Store(ctx context.Context, name string, b []byte) error {
 	var err error
 	if f.Fail {
 		err = ErrInjected
+		if g.FailErr != nil {
+			err = g.FailErr
+		}
 		g.RecStore.mu.Lock()
 		g.RecStore.Calls = append(g.RecStore.Calls, Call{Store: true, Name: name, Err: true})
 		g.RecStore.mu.Unlock()
